@@ -43,6 +43,10 @@ def amuset_case(draw):
     for _ in range(p):
         f = [{'family': 'constant', 'index': 0}] + [c15.fn_spec(draw, d) for _ in range(draw(st.integers(1, 3)))]
         phi.append(f)
+    if p >= 2 and draw(st.sampled_from([False, False, False, True])):
+        # a mode with a single basis function that is not constant (a weight function multiplying the whole basis)
+        phi[draw(st.integers(0, p - 1))] = [draw(st.sampled_from([{'family': 'gauss', 'index': 0, 'mean': 0.0, 'variance': 1.0},
+                                                                   {'family': 'cos', 'index': d - 1, 'alpha': 0.5}]))]
     homogeneous = d >= 2 and p <= 3 and draw(st.sampled_from([False, False, False, False, True]))
     if homogeneous:
         # coordinate functions only (no constant): the transformed data tensor is homogeneous of degree p in the data, so data of size
@@ -97,6 +101,8 @@ def reference(Psi, xi, yi):
     xi, yi = pos[np.asarray(xi)], pos[np.asarray(yi)]          # index arrays address snapshots the NumPy way (negative = from the end)
     Px, Py = Psi[:, xi], Psi[:, yi]
     U, s, Vh = np.linalg.svd(Px, full_matrices=False)
+    if s.size == 0 or not s[0] > 0:
+        return None                     # (the selected snapshots are transformed to zero: nothing to decompose)
     ratio = s / s[0]
     if np.any((ratio > 1e-3 / 3) & (ratio < 3e-3)):
         return None
@@ -191,6 +197,8 @@ def body(c):
         lab.add('negative_indices')
     if len(nmodes) >= 2:
         lab.add('multi_mode')
+    if any(len(f) == 1 and f[0]['family'] != 'constant' for f in c['phi']):
+        lab.add('single_nonconstant_function_mode')
     if c.get('data_form', 'float') != 'float':
         lab.add('data_' + c['data_form'])
     if c.get('x_scale_exp', 0) and c.get('data_form', 'float') == 'float':
